@@ -221,7 +221,7 @@ def body():
             for k in ("size", "limit", "range", "gap"):
                 if not by.get(k):
                     raise V.Infra("generator exported no %s cases" % k)
-            quota = dict(size=90000, limit=120000, range=80000, gap=20000) if thorough else dict(size=15000, limit=15000, range=8000, gap=13000)
+            quota = dict(size=10 ** 6, limit=10 ** 6, range=10 ** 6, gap=10 ** 6) if thorough else dict(size=15000, limit=15000, range=8000, gap=13000)
             cases, exps = [], []
             splits = [("split", s) for s in range(M)]
             for k in ("size", "limit", "range", "gap"):
@@ -241,7 +241,7 @@ def body():
                     cases.append(conv(tc, M, mp, rng))
                     exps.append(expected(tc, M, mp) if isinstance(mp, str) else None)
             n_model = len(cases)
-            cases += random_cases(rng, 30000 if thorough else 4000)
+            cases += random_cases(rng, 60000 if thorough else 4000)
             drift = exps
         # (B) real code
         drv = V.build_driver("certcut")
